@@ -10,6 +10,16 @@ CHECKS = {
    technique='TLA+ spec (specs/Auth) model-checked with TLC; TLC behaviours replayed into a real SSHServerConnection with state comparison; property monitors on observations',
    text='TLC exhausts the Auth specification (every sequence of <=3-4 auth messages over 2 users x methods x credential/signature classes, every chunking, every interleaving with executor and validator completions) against AuthSound/GateUntilAuth/GrantStable; sampled behaviours of the same spec are replayed step by step into the real server with the implementation state projected onto the spec variables after every step, so the exhaustive result transfers to the code on the replayed behaviours. Right level because the property quantifies over schedules and histories.',
    note='Trusted: TLC, the harness event loop (real asyncio scheduling code with virtual selector), truthful application validators, raw peer built on asyncssh transport for its own side only. Bounded: 2 users, <=4 messages.'),
+ 'C07': dict(
+   category='model_checking', design_ref='DESIGN.md §5.7',
+   technique='TLA+ spec (specs/Channel) model-checked with TLC; TLC behaviours replayed packet-by-packet into a real client/server pair with state comparison; monitors on bytes received by the real sessions',
+   text='TLC exhausts the Channel specification (writes on two data types, EOF, pause/resume, window adjusts, network deliveries, one and two channels, windows 1-4, packets 1-3) against DeliveredIsPrefix/Isolation/EOFLast; hundreds of sampled behaviours of the same spec are replayed into real SSHChannel objects with manual packet delivery and compared state by state; a harness sweep covers multi-byte characters split at every packet boundary.',
+   note='Trusted: TLC, virtual loop, hooks pkt_out/pkt_in for packet boundaries. Bounded windows/units; x1 and x1024 byte scaling. Writer=server channel, reader=client channel (same class).'),
+ 'C08': dict(
+   category='model_checking', design_ref='DESIGN.md §5.8',
+   technique='TLA+ spec (specs/Channel) with rogue peer and liveness under weak fairness, checked with TLC; behaviours replayed into a real pair; raw peer with extreme window/packet sizes and data beyond the window',
+   text='TLC exhausts window accounting invariants (never send beyond granted window / packet size, never accept beyond advertised window incl. while paused) with a peer that ignores the window, and the liveness property NoDeadlock under weak fairness; honest and rogue behaviours are replayed into the real code with state comparison; a raw peer drives a real server with window/packet size in {0,1,2,2^32-1} and with excess data in five shapes, paused and unpaused.',
+   note='Trusted: TLC, virtual loop, raw peer built on asyncssh transport for its own side only. Liveness on the code is checked as drain-completeness, not as a temporal property.'),
 }
 NOT_YET = 'check under construction in this round; see DESIGN.md §9'
 
